@@ -325,11 +325,102 @@ def write_workspace(root, nodes, es, inputs=None, commands=None, extra_pkgs=(), 
     if inputs:
         for i, files in inputs.items():
             for f in files:
+                if any(ch in f for ch in "*?[{"):
+                    continue                      # a glob: resolved by grog against the files that exist
                 path = os.path.join(root, nodes[i]["pkg"], f)
                 os.makedirs(os.path.dirname(path), exist_ok=True)
                 if not os.path.exists(path):
                     with open(path, "w") as fh:
                         fh.write("content of " + f + "\n")
+
+
+INPUT_FILES = ["src.txt", "data/x.txt", "lib.in", "main.c"]
+
+
+def sub_packages(nodes, pkg):
+    """packages of the graph strictly below `pkg`, as paths relative to `pkg`"""
+    have = sorted({n["pkg"] for n in nodes})
+    return [q if pkg == "" else q[len(pkg) + 1:] for q in have if q != pkg and (pkg == "" or q.startswith(pkg + "/"))]
+
+
+def gen_input_patterns(rng, nodes, own=(0, 3), reach_p=0.5, files=INPUT_FILES):
+    """declared inputs per target: files of its own package directory and — the case grog allows and Bazel does not — paths and globs
+    that reach INTO sub-directories that are packages of their own (`sub/file`, `sub/**/*.txt`, `**/*.in`), so that one file is an
+    input of targets of several packages."""
+    pats = {}
+    for i, n in enumerate(nodes):
+        if not n["target"]:
+            continue
+        l = rng.sample(files, rng.randint(*own))
+        subs = sub_packages(nodes, n["pkg"])
+        if subs and rng.random() < reach_p:
+            for _ in range(rng.randint(1, 2)):
+                sub = rng.choice(subs)
+                kind = rng.randrange(4)
+                if kind == 0:
+                    l.append(sub + "/" + rng.choice(files))             # explicit path into the sub-package
+                elif kind == 1:
+                    l.append(sub + "/**/*.txt")
+                elif kind == 2:
+                    l.append("**/*." + rng.choice(["txt", "in"]))
+                else:
+                    l.append(sub + "/*." + rng.choice(["txt", "in", "c"]))
+        pats[i] = list(dict.fromkeys(l))
+    return pats
+
+
+def populate_files(root, nodes, files=INPUT_FILES):
+    """every package directory gets every file of the pool (so globs have something to resolve and some files have no owner)"""
+    for pkg in sorted({n["pkg"] for n in nodes}):
+        for f in files:
+            path = os.path.join(root, pkg, f)
+            os.makedirs(os.path.dirname(path), exist_ok=True)
+            if not os.path.exists(path):
+                with open(path, "w") as fh:
+                    fh.write("content of " + f + "\n")
+
+
+def _glob_match(pat, rel):
+    """reference matcher for the generated glob shapes: `**/` = any number of directories, `*` = within one path component"""
+    import fnmatch
+    pp, rp = pat.split("/"), rel.split("/")
+
+    def go(i, j):
+        if i == len(pp):
+            return j == len(rp)
+        if pp[i] == "**":
+            return any(go(i + 1, k) for k in range(j, len(rp) + 1))
+        return j < len(rp) and fnmatch.fnmatchcase(rp[j], pp[i]) and go(i + 1, j + 1)
+    return go(0, 0)
+
+
+def resolve_inputs(root, nodes, patterns):
+    """reference resolution of the declared inputs against the files on disk (what the loader does with doublestar, files only):
+    -> {i: [package-relative paths]}"""
+    res = {}
+    for i, pats in patterns.items():
+        base = os.path.join(root, nodes[i]["pkg"])
+        allfiles = []
+        for d, _, fs in os.walk(base):
+            for f in fs:
+                allfiles.append(os.path.relpath(os.path.join(d, f), base))
+        out = []
+        for p in pats:
+            if any(ch in p for ch in "*?[{"):
+                out += sorted(f for f in allfiles if _glob_match(p, f))
+            else:
+                out.append(p)
+        res[i] = out
+    return res
+
+
+def owner_packages(nodes, resolved):
+    """workspace-relative file -> set of packages of the targets that have it as an input"""
+    m = {}
+    for i, fl in resolved.items():
+        for f in fl:
+            m.setdefault(os.path.normpath(os.path.join(nodes[i]["pkg"], f)), set()).add(nodes[i]["pkg"])
+    return m
 
 
 def grog_env(scratch, platform="linux/amd64", extra=None):
